@@ -99,9 +99,13 @@ class Ctx:
     def check_floors(self):
         from .model import AnalysisError
         for name, r in self.rules.items():
-            if r["instances"] < r["floor"]:
-                raise AnalysisError(f"rule {name} matched {r['instances']} instance(s), below the confirmed floor of "
-                                    f"{r['floor']}: the rule no longer sees the code it was written for")
+            # The confirmed count is what the rule matched on the tree it was written for. Restructuring legitimately
+            # changes the number of sites (two returns merged into one, a pop() replaced by a guard), so the alarm
+            # threshold is "lost sight of most of it": at least one site, and at least a third of the confirmed count.
+            need = 0 if r["floor"] <= 0 else max(1, r["floor"] // 3)
+            if r["instances"] < need:
+                raise AnalysisError(f"rule {name} matched {r['instances']} instance(s), the confirmed count is {r['floor']} "
+                                    f"(alarm threshold {need}): the rule no longer sees the code it was written for")
 
     # ------------------------------------------------------------------
     def finish(self):
